@@ -204,7 +204,7 @@ class Scen(CompScenario):
 class Prop(PropBase):
     ID = "C22"
     tiers = {
-        "quick": {"runs": 1600, "selftest_runs": 4, "shrink_budget_s": 5},
+        "quick": {"runs": 1400, "selftest_runs": 4, "shrink_budget_s": 5},
         "thorough": {"runs": 28000, "selftest_runs": 32, "shrink_budget_s": 30},
     }
     rule = ("one run = one (depth, shape, granularity, read ports, write ports) configuration driven for 60-200 cycles "
